@@ -7,6 +7,8 @@ uniform scaling, rotation covariance of normals).
 """
 import numpy as np
 
+from vf.tx import amax as _amax
+
 from vf.core import Workload
 from vf import taps, gen
 
@@ -161,7 +163,7 @@ class GeomMonitor(taps.Monitor):
             exp = ref_area(p, tl)
             err = np.abs(np.asarray(r) - exp).max() / scale ** 2
             ctx.err("tri_areas_rel", err)
-            if r.shape != (len(tl),) or (r < 0).any() or not np.isfinite(r).all() or err > (1e-7 if m.points.dtype == np.float64 else 1e-4):
+            if r.shape != (len(tl),) or (r < 0).any() or not np.isfinite(r).all() or not (err <= (1e-7 if m.points.dtype == np.float64 else 1e-4)):
                 ctx.fail("tri_areas_wrong", cls=cls, mech="%dD" % m.n_dims + ("" if np.isfinite(r).all() else ":not_finite"), err=float(err))
             elif m.points.dtype == np.float64:
                 # thin triangles: the area is small but well defined (rounding of the coordinates costs ~1e-16 * scale^2);
@@ -181,7 +183,7 @@ class GeomMonitor(taps.Monitor):
                 # per triangle, the three lengths as a multiset
                 g = np.sort(got.reshape(-1, 3), axis=1)
                 e = np.sort(exp, axis=1)
-                if np.abs(g - e).max() > (1e-9 if m.points.dtype == np.float64 else 1e-5) * scale:
+                if _amax(g - e) > (1e-9 if m.points.dtype == np.float64 else 1e-5) * scale:
                     ctx.fail("edge_lengths_wrong", cls=cls, mech="%dD" % m.n_dims)
         elif self.name == "unique_edge_indices":
             exp = set()
@@ -214,16 +216,16 @@ class GeomMonitor(taps.Monitor):
                 ctx.fail("tri_normals_wrong_shape", cls=cls)
                 return
             some = area > 0
-            if some.any() and np.abs(np.linalg.norm(n[some], axis=1) - 1).max() > ntol:
+            if some.any() and _amax(np.linalg.norm(n[some], axis=1) - 1) > ntol:
                 ctx.fail("tri_normals_not_unit", cls=cls, mech="thin_triangle", err=float(np.abs(np.linalg.norm(n[some], axis=1) - 1).max()))
             if ok.any():
                 unit = np.abs(np.linalg.norm(n[ok], axis=1) - 1).max()
                 perp = max(np.abs((n[ok] * e1[ok]).sum(1) / np.linalg.norm(e1[ok], axis=1)).max(),
                            np.abs((n[ok] * e2[ok]).sum(1) / np.linalg.norm(e2[ok], axis=1)).max())
                 ctx.err("tri_normal_unit", unit); ctx.err("tri_normal_perp", perp)
-                if unit > ntol:
+                if not (unit <= ntol):
                     ctx.fail("tri_normals_not_unit", cls=cls, err=float(unit))
-                if perp > ntol:
+                if not (perp <= ntol):
                     ctx.fail("tri_normals_not_perpendicular_to_triangle", cls=cls, err=float(perp))
                 # right-hand orientation w.r.t. the vertex order (consistent with "follow rotations")
                 refn = np.cross(e1[ok], e2[ok])
@@ -248,7 +250,7 @@ class GeomMonitor(taps.Monitor):
             elif defined.any():
                 unit = np.abs(np.linalg.norm(n[defined], axis=1) - 1).max()
                 ctx.err("vertex_normal_unit", unit)
-                if unit > ntol:
+                if not (unit <= ntol):
                     ctx.fail("vertex_normals_not_unit", cls=cls, err=float(unit))
 
 
@@ -437,23 +439,23 @@ def w_geometry(ctx, rng, i):
     ctx.err("area_rigid_rel" + (":f32" if f32 else ""), ea); ctx.err("length_rigid_rel" + (":f32" if f32 else ""), el)
     if f32:
         # single precision: only the coarse relations are judged (the taps judge each query against its reference)
-        if ea > 1e-4 or el > 1e-4 or (a0 < 0).any() or (l0 < 0).any():
+        if not (ea <= 1e-4) or not (el <= 1e-4) or (a0 < 0).any() or (l0 < 0).any():
             ctx.fail("geometry_changes_under_rigid_motion", cls=cls, mech="float32:%dD" % d, err=float(max(ea, el)))
         ctx.count_case((cls, d, kind, "float32", "geometry"), nontrivial=True)
         return
-    if ea > 1e-9 or (a0 < 0).any():
+    if not (ea <= 1e-9) or (a0 < 0).any():
         ctx.fail("areas_change_under_rigid_motion", cls=cls, mech="%dD" % d, err=float(ea))
-    if el > 1e-9 or (l0 < 0).any():
+    if not (el <= 1e-9) or (l0 < 0).any():
         ctx.fail("edge_lengths_change_under_rigid_motion", cls=cls, mech="%dD" % d, err=float(el))
-    if np.abs(a2 - s * s * a0).max() > 1e-9 * max(1, s * s) * scale ** 2:
+    if _amax(a2 - s * s * a0) > 1e-9 * max(1, s * s) * scale ** 2:
         ctx.fail("areas_do_not_scale_with_s_squared", cls=cls, mech="%dD" % d)
-    if np.abs(l2 - s * l0).max() > 1e-9 * max(1, s) * scale:
+    if _amax(l2 - s * l0) > 1e-9 * max(1, s) * scale:
         ctx.fail("edge_lengths_do_not_scale_with_s", cls=cls, mech="%dD" % d)
     if abs(m.mean_tri_area() - a0.mean()) > 1e-9 * scale ** 2:
         ctx.fail("mean_tri_area_inconsistent", cls=cls)
     ue = m.unique_edge_indices()
     ul = m.unique_edge_lengths()
-    if len(ul) != len(ue) or np.abs(ul - np.linalg.norm(m.points[ue[:, 0]] - m.points[ue[:, 1]], axis=1)).max() > 1e-9 * scale:
+    if len(ul) != len(ue) or _amax(ul - np.linalg.norm(m.points[ue[:, 0]] - m.points[ue[:, 1]], axis=1)) > 1e-9 * scale:
         ctx.fail("unique_edge_lengths_inconsistent_with_unique_edges", cls=cls)
     if abs(m.mean_edge_length(unique=True) - ul.mean()) > 1e-9 * scale or abs(m.mean_edge_length(unique=False) - l0.mean()) > 1e-9 * scale:
         ctx.fail("mean_edge_length_inconsistent", cls=cls)
@@ -469,7 +471,7 @@ def w_geometry(ctx, rng, i):
         if ok.any():
             e = np.abs(n1[ok] - n0[ok] @ R.T).max()
             ctx.err("tri_normal_rotation_covariance", e)
-            if e > 1e-7:
+            if not (e <= 1e-7):
                 ctx.fail("tri_normals_do_not_follow_rotation", cls=cls, err=float(e))
     else:
         for q in ("tri_normals", "vertex_normals"):
